@@ -545,7 +545,9 @@ func classify(d ast.Decl) (labels []string) {
 
 // A replay file is Go source text.
 func replay(content []byte) error {
-	strict = true
+	// development aid: C25_REPLAY_MASKED=1 re-checks a file with the known-finding
+	// exclusions switched on (to see whether anything lies behind them)
+	strict = os.Getenv("C25_REPLAY_MASKED") == ""
 	defer func() { strict = false }()
 	err, _ := checkSource("replay.go", content, nil)
 	return err
